@@ -34,6 +34,8 @@ use rsm_harness::{catch, silence_panics, Rng};
 mod formats;
 #[path = "../c17_deep.rs"]
 mod deep;
+#[path = "../c17_certx.rs"]
+mod certx;
 
 // ------------------------------------------------------------------ helpers
 
@@ -60,7 +62,7 @@ fn unhex(s: &str) -> Vec<u8> {
 /// one token, one line
 fn clean(s: &str) -> String {
     let first = s.lines().next().unwrap_or("");
-    first.chars().take(200).map(|c| if c.is_whitespace() { '_' } else { c }).collect()
+    first.chars().take(400).map(|c| if c.is_whitespace() { '_' } else { c }).collect()
 }
 
 /// The error classes the model distinguishes.
@@ -380,7 +382,13 @@ fn run_line(line: &str, out: &mut String) {
             // T <id> <fmt> <mode> <arg>
             let (id, fmt, mode, arg) = (f[1], f[2], f[3], f.get(4).copied().unwrap_or(""));
             let (fmt_s, mode_s, arg_s) = (fmt.to_string(), mode.to_string(), arg.to_string());
-            let r = catch(move || formats::run_t(&fmt_s, &mode_s, &arg_s));
+            let r = catch(move || {
+                if fmt_s == "certx" {
+                    certx::run_t(&mode_s, &arg_s)
+                } else {
+                    formats::run_t(&fmt_s, &mode_s, &arg_s)
+                }
+            });
             match r {
                 Ok(Ok(d)) => writeln!(out, "T {} {} {} ok {}", id, fmt, mode, clean(&d)).unwrap(),
                 Ok(Err(e)) if e.starts_with("SKIP:") => writeln!(out, "T {} {} {} ok {}", id, fmt, mode, clean(&e)).unwrap(),
@@ -388,6 +396,7 @@ fn run_line(line: &str, out: &mut String) {
                 Err(p) => writeln!(out, "T {} {} {} PANIC {}", id, fmt, mode, clean(&p)).unwrap(),
             }
         }
+        "CE" if f.len() >= 6 => writeln!(out, "CE {} {}", f[1], certx::run_ce(&f)).unwrap(),
         k if deep::KINDS.contains(&k) => deep::run_line(&f, out),
         _ => {}
     }
@@ -815,7 +824,12 @@ fn gen_all(rng: &mut Rng, scale: usize) -> Gen {
     deep::gen(rng, scale, &mut |k, rest| g.push(k, rest));
 
     // ---- formats without a model
-    for (fmt, mode, arg) in formats::gen_t(rng, scale) {
+    for rest in certx::gen_ce(rng, scale) {
+        g.push("CE", rest);
+    }
+    let mut tcases = formats::gen_t(rng, scale);
+    tcases.extend(certx::gen_t(rng, scale));
+    for (fmt, mode, arg) in tcases {
         let key = format!("T:{}:{}", fmt, mode);
         writeln!(g.lines, "T {} {} {} {}", g.id, fmt, mode, arg).unwrap();
         g.id += 1;
